@@ -304,4 +304,94 @@ theorem c09_counterexample_fb_member :
     (W.before4.map fun p => (W.num? p.1, W.num? p.2)) = some (some 9, some 2) ∧
     (W.warm4.map fun p => (W.num? p.1, W.num? p.2)) = some (some 7, some 2) := by decide
 
+/-! ## Cold restart = freshly built runtime, under the guards -/
+
+/-- Guard "SINGLE initial values FALSE": the fresh runtime seeds `last_single` with FALSE for every
+task (no SINGLE variable, or one that is not TRUE right after the build). -/
+def SingleInitFalse (src : Source) (fr : Runtime) : Prop :=
+  ∀ t, t ∈ src.tasks → registerTaskState fr.storage 0 t.single = newTaskState 0
+
+/-- **Cold = fresh, partial.**  Let `fr` be the runtime built from `src` and `rt` ANY runtime of the
+same project (same declarations; `WF`: what the compiler guarantees about names).  Guards: no
+VAR_CONFIG values (`hci`), SINGLE initial values FALSE (`hsingle`).  Then after `restart(Cold)`:
+
+* every declared global, every program variable and every member of every FB instance they hold
+  shows — observed by path, instance ids hidden — exactly what it shows in the fresh runtime;
+* time, fault latch, cycle counter, frame count and every task's scheduling state are the fresh
+  ones;
+* if the %Q and %M images were zero before the restart they are the fresh images.
+
+This is the state every subsequent cycle reads (`cycle` reads nothing else besides the bindings,
+covered by `c09_bindings_live_partial`, and the %I image, which belongs to the environment).
+That equal observations yield equal outputs for every continuation is checked by the twin run of
+the correspondence, not proved. -/
+theorem c09_cold_fresh_partial (src : Source) (fr rt rt' : Runtime)
+    (hbuild : build src = some fr) (hci : src.configInits = [])
+    (hsame : rt.globalsMeta = fr.globalsMeta ∧ rt.programs = fr.programs ∧ rt.fbs = fr.fbs)
+    (hwf : WF rt) (hpl : PlainInits rt.globalsMeta rt.programs)
+    (hsingle : SingleInitFalse src fr) (hlen : rt.taskState.length = src.tasks.length)
+    (h : restart .cold rt = .ok rt') :
+    (∀ m member, m ∈ rt.globalsMeta →
+      rt'.readGlobalPath m.name member = fr.readGlobalPath m.name member) ∧
+    (∀ p d member, p ∈ rt.programs → d ∈ p.vars → d.init ≠ .ext →
+      rt'.readProgPath p.name d.name member = fr.readProgPath p.name d.name member) ∧
+    rt'.time = fr.time ∧ rt'.fault = fr.fault ∧ rt'.cycleCounter = fr.cycleCounter ∧
+    rt'.storage.frames = fr.storage.frames ∧ rt'.taskState = fr.taskState ∧
+    (rt.io.outputs = [] → rt.io.memory = [] →
+      rt'.io.outputs = fr.io.outputs ∧ rt'.io.memory = fr.io.memory) := by
+  obtain ⟨hm, hp, hf⟩ := hsame
+  have hnd : (src.globals.map (·.name)).Nodup := by
+    have := hwf.globalsNodup
+    obtain ⟨_, _, _, _, _, b4, _⟩ := build_spec_meta src fr hbuild
+    rw [hm, b4] at this
+    simpa [List.map_map, GlobalDecl.toMeta, Function.comp_def] using this
+  obtain ⟨f1, f2, b1, b2, b3, b4, b5, b6, b7, b8, b9, b10, b11, b12, b13⟩ :=
+    build_spec src fr hbuild hci hnd
+  obtain ⟨s1, s2, r1, r2, r3⟩ := restart_decompose .cold rt rt' h
+  have hret : retainedOf .cold rt = [] := by simp [retainedOf, Mode.isWarm]
+  have hpv : retainedPvOf .cold rt = [] := by simp [retainedPvOf, Mode.isWarm]
+  rw [hret] at r1
+  simp only [Mode.isWarm] at r1
+  have hst : rt'.storage = { s2 with frames := 0 } := by
+    rw [r3, hpv]; simp [restoreProgVars]
+  -- both storages come out of the same two loops
+  have cr := cold_paths rt.fbs rt.globalsMeta rt.programs rt.storage s1 s2 r1 r2
+    hwf.globalsNodup hwf.progsNodup hwf.varsNodup hwf.disjoint hpl
+  have cf := cold_paths rt.fbs rt.globalsMeta rt.programs {} f1 f2
+    (by rw [hm, b4, hf, b5]; exact b1) (by rw [hp, b6, hf, b5]; exact b2)
+    hwf.globalsNodup hwf.progsNodup hwf.varsNodup hwf.disjoint hpl
+  have hframes : fr.storage.frames = 0 := by
+    rw [b3]
+    have hb1 := b1
+    have hb2 := b2
+    have hnd' : ((src.globals.map GlobalDecl.toMeta).map (·.name)).Nodup := by
+      simpa [List.map_map, GlobalDecl.toMeta, Function.comp_def] using hnd
+    obtain ⟨i1, _, _⟩ := resetGlobals_spec _ _ _ _ _ _ hb1 hnd'
+    have i2 := (recreatePrograms_spec _ _ _ _ hb2 (by rw [← b6, ← hp]; exact hwf.progsNodup)
+      (by rw [← b6, ← hp]; exact hwf.varsNodup)).1
+    rw [i2.frames, i1.frames]
+  refine ⟨?_, ?_, ?_, ?_, ?_, ?_, ?_, ?_⟩
+  · intro m member hmm
+    rw [readGlobalPath_eq, readGlobalPath_eq, hst, b3, cf.1 m member hmm]
+    exact cr.1 m member hmm
+  · intro p d member hpp hd hne
+    rw [readProgPath_eq, readProgPath_eq, hst, b3, cf.2 p d member hpp hd hne]
+    exact cr.2 p d member hpp hd hne
+  · rw [r3, b7]
+  · rw [r3, b8]
+  · rw [r3, b9]
+  · rw [hst, hframes]
+  · rw [r3, b10]
+    simp only
+    apply List.ext_getElem
+    · simp [hlen]
+    · intro i h1 h2
+      simp only [List.getElem_map]
+      have := hsingle (src.tasks[i]'(by simpa using h2)) (List.getElem_mem _)
+      rw [b3] at this
+      exact this.symm
+  · intro ho hmem
+    rw [r3, b12, b13]
+    exact ⟨ho, hmem⟩
+
 end TrustVerif.C09
